@@ -151,12 +151,20 @@ type vFSM struct {
 	through  uint64 // index of the last replicated operation reflected in the state
 	restores int
 	need     bool
+	preApply func(op *Operation) // runs before the operation takes effect in the state machine
 	onApply  func(op *Operation)
+	order    bool // set when an operation arrived that is not the successor of what the state reflects
 	onSnap   func()
 	onRest   func()
 }
 
 func (f *vFSM) Apply(operation *Operation) interface{} {
+	if f.preApply != nil {
+		f.preApply(operation)
+	}
+	if operation.OperationType == Replicated && operation.LogIndex <= f.through {
+		f.order = true // applied twice (or out of order): the state already reflects this index
+	}
 	a := vApplied{index: operation.LogIndex, term: operation.LogTerm, blen: len(operation.Bytes), typ: operation.OperationType}
 	if len(operation.Bytes) > 0 {
 		a.b0 = operation.Bytes[0]
@@ -321,6 +329,21 @@ func vBuildLog(name string, n int, base, baseTerm uint64, dataLen int, anyTypes 
 		panic(err)
 	}
 	return l
+}
+
+// vSyncLogToDisk rewrites the on-disk records after a harness edited entries in memory (natively only;
+// symbolically memory is the durable content).
+func vSyncLogToDisk(l *persistentLog) {
+	if vSymbolic() || len(l.entries) < 2 {
+		return
+	}
+	es := append([]*LogEntry{}, l.entries[1:]...)
+	if err := l.Truncate(es[0].Index); err != nil {
+		panic(err)
+	}
+	if err := l.AppendEntries(es); err != nil {
+		panic(err)
+	}
 }
 
 func vBuildNode(spec vNodeSpec) *vNode {
@@ -510,6 +533,7 @@ type vSnapRec struct {
 type vSnapStore struct {
 	recs  []*vSnapRec
 	opens int
+	onVisible func(rec *vSnapRec) // runs when a writer is closed, i.e. at the instant a snapshot becomes visible
 	big   *vBigSnapFile // if set, SnapshotFile hands out this reader (symbolic size) for the newest snapshot
 }
 
@@ -595,6 +619,9 @@ func (f *vSnapFile) Close() error {
 	f.closed = true
 	if f.writing {
 		f.rec.visible = true
+		if f.store.onVisible != nil {
+			f.store.onVisible(f.rec)
+		}
 	}
 	return nil
 }
